@@ -53,7 +53,13 @@ def main():
                 cwd=str(wt), env=env, timeout=1200)
             result["tests_rc"] = rct
             result["tests_tail"] = outt.strip().splitlines()[-2:]
-            rc1, out1 = sh(["/venv/bin/python", str(demo)], cwd=str(wt), env=env, timeout=180)
+            runs = []
+            for _ in range(4):  # schedule-dependent demos: a failure in any of up to 4 runs counts
+                rc1, out1 = sh(["/venv/bin/python", str(demo)], cwd=str(wt), env=env, timeout=180)
+                runs.append(rc1)
+                if rc1 != 0:
+                    break
+            result["demo_changed_runs"] = runs
             result["demo_changed_rc"] = rc1
             result["demo_changed_tail"] = [l[:300] for l in out1.strip().splitlines()[-2:]]
         ok = result.get("applies") and rc0 == 0 and result.get("tests_rc") == 0 and result.get("demo_changed_rc", 0) != 0
